@@ -17,6 +17,12 @@ theorem NameSite.bounds {buf : Bytes} {p x e : Nat} (h : NameSite buf p x e) :
 theorem NameSite.lt {buf : Bytes} {p x e : Nat} (h : NameSite buf p x e) : p < e := by
   have := h.bounds; omega
 
+theorem NameSite.le_length {buf : Bytes} {p x e : Nat} (h : NameSite buf p x e) : e ≤ buf.length := h.bounds.2.2
+
+/-- `p < e ≤ length`, without the case distinction of `bounds` (cheaper for `omega`) -/
+theorem NameSite.span {buf : Bytes} {p x e : Nat} (h : NameSite buf p x e) : p < e ∧ e ≤ buf.length :=
+  ⟨h.lt, h.le_length⟩
+
 /-- what sits at the terminal position -/
 theorem NameSite.term {buf : Bytes} {p x e : Nat} (h : NameSite buf p x e) :
     (e = x + 1 ∧ buf[x]? = some 0) ∨
